@@ -27,6 +27,13 @@ POINTS = {
     'IA5String': ['a', 'b', 'k', 'z', 'A', '~'],
 }
 
+CROSS = {
+    'NumericString': [(' 19', '0', '5'), ('05 ', '1', '9')],
+    'PrintableString': [('yz0', 'A', 'z'), ('89 ', '0', '9'), ('Zz5', 'a', 'z'), ('aZ9', 'A', 'Z'), ('A?a', '0', '9')],
+    'VisibleString': [('a~ ', 'A', 'z'), ('0Az', '!', '9')],
+    'IA5String': [('aZ~', 'A', 'k'), ('\t5z', '0', 'a')],
+}
+
 
 def lit(s):
     return '"' + s.replace('"', '""') + '"'
@@ -83,6 +90,12 @@ def shapes(tier):
         exprs.append(([El('all', ''), els[-1]], ['EXCEPT']))
         exprs.append(([lo_rng, far], ['EXCEPT']))
         exprs.append(([far, lo_rng], ['EXCEPT']))
+        # a string whose lowest / highest character and the end points of the range lie in DIFFERENT character classes (letters,
+        # digits, symbols), so that "which of the two is the smaller" differs between code point order and any other table order
+        for st, lo, hi in CROSS[ty]:
+            for op in ('^', '|'):
+                exprs.append(([El('str', st), El('range', lo, hi)], [op]))
+                exprs.append(([El('range', lo, hi), El('str', st)], [op]))
         for e1, e2, e3 in itertools.product(els[:3] if tier == 'quick' else els[:5], repeat=3):
             exprs.append(([e1, e2, e3], ['|', 'EXCEPT']))
         if tier != 'quick':
